@@ -63,7 +63,11 @@ impl BufWriter {
     /// every byte handed to the writer so far, in order (= the file content once flushed)
     pub uninterp spec fn written(&self) -> Seq<u8>;
 
+    /// every byte of written() has reached the file: nothing is pending in the buffer and no write error is outstanding
+    pub uninterp spec fn durable(&self) -> bool;
+
     /// TRUSTED (std): write_all either appends all of buf (Ok) or fails; on failure some prefix may have been appended.
+    /// Nothing is promised about durability after a write: the bytes may sit in the buffer.
     #[verifier::external_body]
     pub fn write_all(&mut self, buf: &[u8]) -> (r: Result<()>)
         ensures
@@ -73,11 +77,13 @@ impl BufWriter {
         unimplemented!()
     }
 
-    /// TRUSTED (std): flush moves buffered bytes to the file; the byte sequence is unchanged.
+    /// TRUSTED (std): flush moves buffered bytes to the file; the byte sequence is unchanged; only a SUCCESSFUL flush
+    /// makes it durable (disk full, file-size limit ... surface here or in write_all as Err).
     #[verifier::external_body]
     pub fn flush(&mut self) -> (r: Result<()>)
         ensures
             final(self).written() == old(self).written(),
+            r.is_ok() ==> final(self).durable(),
     {
         unimplemented!()
     }
